@@ -8,6 +8,9 @@
 //   are re-proved here.
 // Rewrite rules: R1, zipidx (the zip over the two sub-slices `&Lx[f..l]`, `&Li[f..l]` becomes an index loop over them; the two slice expressions
 //   themselves are real text, their range checks are proof obligations).
+// MEASURED (verus --rlimit 50 = 150 M units): 29 obligations + the canary (must fail), 2 s; _ltsolve_safe 0.93 M (0.6 %), _lsolve_safe 0.75 M; seeds 1..4 stable.
+// MUTATION ROUND (7 wrong edits, one at a time): all fail a named obligation (`+=` for `-=`, Lp[i] + 1 for Lp[i + 1], x[Lij] for xi, forward order in the
+//  transposed solve, `x[i] += s`, s accumulated from x[i], slice f..l+1).
 use vstd::prelude::*;
 verus! {
 //@include prelude/float_opaque.rs
